@@ -55,7 +55,9 @@ def z_ord(y, m, d):
     c = core.CUR
     if not USE_ORD_FUNCTION or c is None:
         return z_ord_expr(y, m, d)
-    y, m, d = [z3.IntVal(v) if isinstance(v, int) else v for v in (y, m, d)]
+    y, m, d = [z3.IntVal(v) if isinstance(v, int) else z3.simplify(v) for v in (y, m, d)]
+    if z3.is_int_value(y) and z3.is_int_value(m) and z3.is_int_value(d):
+        return z3.simplify(z_ord_expr(y, m, d))
     app = _ORD(y, m, d)
     seen = c.notes.setdefault("ord_defs", set())
     k = app.get_id()
@@ -321,12 +323,17 @@ class SDateTime:
     def _from_pair(cls, o, r, tzinfo, tail=None):
         """datetime with ordinal term o (known in range) and µs-of-day term r (or the given time fields)"""
         o = z3.simplify(o)
-        y, m, d = fresh_int("y"), fresh_int("m"), fresh_int("d")
-        add(z_valid_date(y, m, d), z_ord(y, m, d) == o)
+        if z3.is_int_value(o):
+            # concrete ordinal: concrete date (no fresh variables)
+            cd = _rdt.date.fromordinal(o.as_long())
+            y, m, d = z3.IntVal(cd.year), z3.IntVal(cd.month), z3.IntVal(cd.day)
+        else:
+            y, m, d = fresh_int("y"), fresh_int("m"), fresh_int("d")
+            add(z_valid_date(y, m, d), z_ord(y, m, d) == o)
         if tail is None:
             r = z3.simplify(r)
             tail = (mkint(r / 3600000000), mkint((r / 60000000) % 60), mkint((r / 1000000) % 60), mkint(r % 1000000))
-        res = cls(SInt(y), SInt(m), SInt(d), *tail, tzinfo=tzinfo, _trusted=True)
+        res = cls(mkint(y), mkint(m), mkint(d), *tail, tzinfo=tzinfo, _trusted=True)
         res._ord_term = o
         res._tod_term = r
         return res
@@ -382,6 +389,12 @@ class SDateTime:
             res._tod_term = z3.simplify(t)
         return res
 
+    def _copy(self):
+        res = SDateTime(self.year, self.month, self.day, self.hour, self.minute, self.second, self.microsecond,
+                        tzinfo=self.tzinfo, _trusted=True)
+        res._ord_term, res._tod_term = self._ord_term, self._tod_term
+        return res
+
     def weekday(self):
         return mkint((self._ord() + 6) % 7)
 
@@ -430,7 +443,7 @@ class SDateTime:
             # whole days: the time of day (and its decomposition) is untouched
             dd = z3.simplify(td._d)
             if z3.is_int_value(dd) and dd.as_long() == 0:
-                return self.replace()
+                return self._copy()
             r = self._tod_term
             tail = (self.hour, self.minute, self.second, self.microsecond)
         else:
